@@ -449,6 +449,90 @@ Proof.
     + rewrite (IH Hn' Hin). ring.
 Qed.
 
+(* ---- what makes the Allocation constructor accept ---- *)
+Lemma mk_allocation_intro aeps cells : cells <> [] -> forallb cell_ok cells = true ->
+  in_quadrant cells = true -> no_overlap aeps cells = true ->
+  (forall n, In n (module_names cells) -> area_of n cells <> 0) ->
+  mk_allocation aeps cells = Some cells.
+Proof.
+  intros Hne H1 H2 H3 H4. unfold mk_allocation. destruct cells as [|c cs]; [congruence|].
+  rewrite H1, H2, H3. cbn [andb].
+  assert (E : forallb (fun m => negb (Qceqb (area_of m (c :: cs)) 0)) (module_names (c :: cs)) = true).
+  { apply forallb_forall. intros n Hn. apply negb_true_iff. qb2p. apply H4. exact Hn. }
+  rewrite E. reflexivity.
+Qed.
+
+Lemma no_overlap_pairwise aeps cells : 0 <= aeps -> pairwise_no_ov (map crect cells) -> no_overlap aeps cells = true.
+Proof.
+  intro Ha. induction cells as [|c cs IH]; cbn [map pairwise_no_ov no_overlap]; [reflexivity|].
+  intros [Hc Hp]. rewrite (IH Hp), andb_true_r. clear IH Hp.
+  induction cs as [|d ds IH]; cbn [map no_overlap_with]; [reflexivity|].
+  inversion Hc as [|? ? Hd Hds]; subst. rewrite (IH Hds), andb_true_r.
+  unfold overlap. rewrite Hd. apply negb_true_iff. qb2p. exact Ha.
+Qed.
+
+Lemma add_names_in n a : forall acc, In n (add_names a acc) -> In n acc \/ In n (map fst a).
+Proof.
+  induction a as [|[k v] a IH]; cbn [add_names map fst]; intros acc H; [left; exact H|].
+  apply IH in H. destruct H as [H|H]; [|right; right; exact H].
+  destruct (existsb (String.eqb k) acc); [left; exact H|].
+  apply in_app_or in H. destruct H as [H|[<-|[]]]; [left; exact H|right; left; reflexivity].
+Qed.
+
+Lemma module_names_in n cells : In n (module_names cells) ->
+  exists c, In c cells /\ In n (map fst (calloc c)).
+Proof.
+  unfold module_names.
+  assert (G : forall acc, In n (fold_left (fun acc c => add_names (calloc c) acc) cells acc) ->
+              In n acc \/ exists c, In c cells /\ In n (map fst (calloc c))).
+  { induction cells as [|c cs IH]; cbn [fold_left]; intros acc H; [left; exact H|].
+    apply IH in H. destruct H as [H|(c' & Hc' & Hn)].
+    - apply add_names_in in H. destruct H as [H|H]; [left; exact H|].
+      right. exists c. split; [left; reflexivity|exact H].
+    - right. exists c'. split; [right; exact Hc'|exact Hn]. }
+  intro H. apply G in H. destruct H as [[]|H]. exact H.
+Qed.
+
+Lemma pairwise_app_intro l1 l2 : pairwise_no_ov l1 -> pairwise_no_ov l2 ->
+  (forall a b, In a l1 -> In b l2 -> area_overlap a b = 0) -> pairwise_no_ov (l1 ++ l2).
+Proof.
+  induction l1 as [|x l1 IH]; cbn [app pairwise_no_ov]; intros H1 H2 H3; [exact H2|].
+  destruct H1 as [Hx H1]. split.
+  - apply Forall_app. split; [exact Hx|]. apply Forall_forall. intros b Hb. apply H3; [left; reflexivity|exact Hb].
+  - apply IH; auto. intros a b Ha Hb. apply H3; [right; exact Ha|exact Hb].
+Qed.
+
+Lemma pairwise_map_fixed l : pairwise_no_ov l -> pairwise_no_ov (map set_fixed l).
+Proof.
+  induction l as [|x l IH]; cbn [map pairwise_no_ov]; [auto|]. intros [Hx Hp]. split; [|auto].
+  rewrite Forall_map. eapply Forall_impl; [|exact Hx]. intros a Ha. exact Ha.
+Qed.
+
+Lemma crect_pre l : map crect (pre_cells l) = map set_fixed (flat_map mrects l).
+Proof.
+  unfold pre_cells. induction l as [|x l IH]; [reflexivity|]. cbn [flat_map].
+  rewrite !map_app, IH, map_map. reflexivity.
+Qed.
+
+Lemma alloc_of_in inc0 ms c p : In p (alloc_of inc0 ms c) ->
+  exists m, In m ms /\ p = (mname m, cov_ratio c (mrects m)) /\ (inc0 || Qcltb 0 (cov_ratio c (mrects m))) = true.
+Proof.
+  unfold alloc_of. intro H. apply in_flat_map in H. destruct H as (m & Hm & Hp). cbv zeta in Hp.
+  destruct (inc0 || Qcltb 0 (cov_ratio c (mrects m))) eqn:E; [|destruct Hp].
+  destruct Hp as [<-|[]]. exists m. auto.
+Qed.
+
+Lemma nodup_keys_alloc_of inc0 ms c : NoDup (map mname ms) -> nodup_keys (alloc_of inc0 ms c) = true.
+Proof.
+  induction ms as [|x ms IH]; cbn [map]; intro Hn; [reflexivity|].
+  inversion Hn as [|? ? Hx Hn']; subst.
+  change (alloc_of inc0 (x :: ms) c) with
+    ((if inc0 || Qcltb 0 (cov_ratio c (mrects x)) then [(mname x, cov_ratio c (mrects x))] else [])
+     ++ alloc_of inc0 ms c).
+  destruct (inc0 || Qcltb 0 (cov_ratio c (mrects x))); cbn [app nodup_keys]; [|auto].
+  rewrite lookup_absent; [auto|]. intro H. apply Hx. eapply alloc_of_keys. exact H.
+Qed.
+
 Lemma shape_wf sqrt_o m : Forall wf (mrects m) -> Forall wf (shape sqrt_o m).
 Proof.
   intro H. unfold shape. destruct (mrects m) eqn:Er; [|exact H]. unfold create_square.
@@ -690,5 +774,139 @@ Section Main.
         split; [apply filter_In; split; assumption|exact Hr]. }
       rewrite <- (covered_self (R ++ Fx) r HP HW Hin). unfold covered.
       apply Qcsum_map_ext. intros c _. apply ov_sym.
+  Qed.
+
+  (* ---- the construction is accepted ---- *)
+  Definition well_placed (R Fx : list Rect) (mods : list nmod) : Prop :=
+    R ++ Fx <> [] /\
+    Forall (fun r => 0 <= xmin r /\ 0 <= ymin r) (R ++ Fx) /\
+    Forall (fun m => valid_identifier (mname m) = true) mods /\
+    Forall (fun m => pairwise_no_ov (mrects m) /\ Forall wf (mrects m)) mods.
+
+  Lemma init_cells_accepted aeps R Fx mods : compatible R Fx mods -> well_placed R Fx mods -> 0 <= aeps ->
+    mk_allocation aeps (init_cells R Fx) = Some (init_cells R Fx).
+  Proof.
+    intros (HW & HP & _) (Hne & HQ & _) Ha. unfold init_cells. apply mk_allocation_intro.
+    - intro E. apply map_eq_nil in E. contradiction.
+    - apply forallb_forall. intros c Hc. apply in_map_iff in Hc. destruct Hc as (r & <- & Hr).
+      unfold cell_ok. cbn [crect calloc]. rewrite Forall_forall in HW. destruct (HW r Hr) as [A B].
+      unfold wfb. rewrite (proj2 (Qcltb_true _ _) A), (proj2 (Qcltb_true _ _) B). reflexivity.
+    - unfold in_quadrant. apply forallb_forall. intros c Hc. apply in_map_iff in Hc. destruct Hc as (r & <- & Hr).
+      cbn [crect]. rewrite Forall_forall in HQ. destruct (HQ r Hr) as [A B].
+      rewrite (proj2 (Qcleb_true _ _) A), (proj2 (Qcleb_true _ _) B). reflexivity.
+    - apply no_overlap_pairwise; [exact Ha|]. rewrite map_map. cbn [crect]. rewrite map_id. exact HP.
+    - intros n Hn. apply module_names_in in Hn. destruct Hn as (c & Hc & Hin).
+      apply in_map_iff in Hc. destruct Hc as (r & <- & _). destruct Hin.
+  Qed.
+
+  Lemma crect_expected inc0 R Fx mods : compatible R Fx mods ->
+    map crect (expected inc0 R mods) = map set_fixed Fx ++ R.
+  Proof.
+    intros (HW & HP & HR & HF & HX & HN & HS). unfold expected, out_cells.
+    fold (pre_cells (filter mfixed (map squared mods))).
+    rewrite map_app, crect_pre, (fixed_rects_squared mods HX), <- HF, map_map. cbn [crect]. rewrite map_id.
+    reflexivity.
+  Qed.
+
+  Lemma expected_cases inc0 R mods cell : In cell (expected inc0 R mods) ->
+    (exists m r, In m (filter mfixed (map squared mods)) /\ In r (mrects m) /\
+                 cell = mkCell (set_fixed r) [(mname m, 1)] 0%nat) \/
+    (exists c, In c R /\ cell = mkCell c (alloc_of inc0 (map squared mods) c) 0%nat).
+  Proof.
+    unfold expected, out_cells. intro H. apply in_app_or in H. destruct H as [H|H].
+    - left. apply in_flat_map in H. destruct H as (m & Hm & Hc). apply in_map_iff in Hc.
+      destruct Hc as (r & <- & Hr). exists m, r. auto.
+    - right. apply in_map_iff in H. destruct H as (c & <- & Hc). exists c. auto.
+  Qed.
+
+  Lemma in_squared mods m' : In m' (map squared mods) -> exists m, In m mods /\ m' = squared m.
+  Proof. intro H. apply in_map_iff in H. destruct H as (m & <- & Hm). exists m. auto. Qed.
+
+  Theorem ia_ok feps aeps inc0 R Fx mods : compatible R Fx mods -> well_placed R Fx mods ->
+    0 < feps -> feps < 1 -> 0 <= aeps ->
+    (inc0 = true -> forall m, In m mods -> mfixed m = false -> exists c, In c R /\ 0 < covered c (shape m)) ->
+    initial_allocation sqrt_o feps aeps inc0 R Fx mods = Accept (expected inc0 R mods).
+  Proof.
+    intros Hc Hwp H0 H1 Ha Htouch.
+    rewrite (ia_cells feps aeps inc0 R Fx mods Hc H0 H1), (init_cells_accepted aeps R Fx mods Hc Hwp Ha).
+    pose proof Hc as (HW & HP & HR & HF & HX & HN & HS). pose proof Hwp as (Hne & HQ & HV & HD).
+    assert (HNs : NoDup (map mname (map squared mods))) by (rewrite names_squared; exact HN).
+    assert (WR : forall c, In c R -> wf c).
+    { intros c Hin. rewrite Forall_forall in HW. apply HW. apply in_or_app. left. exact Hin. }
+    assert (WF : forall m r, In m mods -> mfixed m = true -> In r (mrects m) -> In r Fx).
+    { intros m r Hm Hf Hr. rewrite HF. apply in_flat_map. exists m. split; [apply filter_In; split; assumption|exact Hr]. }
+    unfold finalize. rewrite mk_allocation_intro; [reflexivity| | | | |].
+    - intro E. apply (f_equal (map crect)) in E. rewrite (crect_expected inc0 R Fx mods Hc) in E.
+      cbn [map] in E. apply app_eq_nil in E. destruct E as [E1 E2]. apply map_eq_nil in E1.
+      apply Hne. rewrite E1, E2. reflexivity.
+    - apply forallb_forall. intros cell Hin. unfold cell_ok.
+      destruct (expected_cases inc0 R mods cell Hin) as [(m' & r & Hm' & Hr & ->)|(c & Hin' & ->)]; cbn [crect calloc].
+      + apply filter_In in Hm'. destruct Hm' as [Hm' Hf']. destruct (in_squared mods m' Hm') as (m & Hm & ->).
+        rewrite squared_fixed in Hf'. rewrite squared_rects, (fixed_shape mods m HX Hm Hf') in Hr.
+        assert (Wr : wf r) by (rewrite Forall_forall in HW; apply HW; apply in_or_app; right; eapply WF; eauto).
+        destruct Wr as [A B]. unfold wfb, set_fixed. cbn [rw rh].
+        rewrite (proj2 (Qcltb_true _ _) A), (proj2 (Qcltb_true _ _) B). unfold alloc_ok. cbn [forallb fst snd nodup_keys lookup].
+        rewrite Forall_forall in HV. rewrite squared_name, (HV m Hm).
+        assert (Qcleb 0 1 = true) as -> by (qb2p; qlra). assert (Qcleb 1 1 = true) as -> by (qb2p; qlra). reflexivity.
+      + destruct (WR c Hin') as [A B]. unfold wfb.
+        rewrite (proj2 (Qcltb_true _ _) A), (proj2 (Qcltb_true _ _) B). cbn [andb]. unfold alloc_ok.
+        rewrite (nodup_keys_alloc_of inc0 _ c HNs), andb_true_r.
+        apply forallb_forall. intros p Hp. apply alloc_of_in in Hp. destruct Hp as (m' & Hm' & -> & _).
+        destruct (in_squared mods m' Hm') as (m & Hm & ->). cbn [fst snd].
+        rewrite Forall_forall in HV. rewrite squared_name, (HV m Hm), squared_rects. cbn [andb].
+        rewrite Forall_forall in HD. destruct (HD m Hm) as [Pm Wm].
+        pose proof (cov_ratio_nonneg c (shape m) (WR c Hin')) as N0.
+        assert (N1 : cov_ratio c (shape m) <= 1).
+        { rewrite cov_ratio_eq. apply div_le_1; [|apply wf_area_pos; auto].
+          apply covered_le_area; [auto|apply shape_pairwise; exact Pm|apply shape_wf; exact Wm]. }
+        rewrite (proj2 (Qcleb_true _ _) N0), (proj2 (Qcleb_true _ _) N1). reflexivity.
+    - unfold in_quadrant. apply forallb_forall. intros cell Hin.
+      assert (Hq : In (crect cell) (map set_fixed Fx ++ R)).
+      { rewrite <- (crect_expected inc0 R Fx mods Hc). apply in_map. exact Hin. }
+      rewrite Forall_forall in HQ. apply in_app_or in Hq. destruct Hq as [Hq|Hq].
+      + apply in_map_iff in Hq. destruct Hq as (r & E & Hr).
+        destruct (HQ r (in_or_app _ _ _ (or_intror Hr))) as [A B]. rewrite <- E.
+        change (xmin (set_fixed r)) with (xmin r). change (ymin (set_fixed r)) with (ymin r).
+        rewrite (proj2 (Qcleb_true _ _) A), (proj2 (Qcleb_true _ _) B). reflexivity.
+      + destruct (HQ _ (in_or_app _ _ _ (or_introl Hq))) as [A B].
+        rewrite (proj2 (Qcleb_true _ _) A), (proj2 (Qcleb_true _ _) B). reflexivity.
+    - apply no_overlap_pairwise; [exact Ha|]. rewrite (crect_expected inc0 R Fx mods Hc).
+      destruct (pairwise_app R Fx HP) as (PR & PF & PX).
+      apply pairwise_app_intro; [apply pairwise_map_fixed; exact PF|exact PR|].
+      intros a b Ha' Hb. apply in_map_iff in Ha'. destruct Ha' as (r & <- & Hr).
+      change (area_overlap (set_fixed r) b) with (area_overlap r b). rewrite ov_sym. apply PX; assumption.
+    - intros n Hn. apply module_names_in in Hn. destruct Hn as (cell & Hin & Hk).
+      assert (G : forall m, In m mods -> (mfixed m = false -> exists c, In c R /\ 0 < covered c (shape m)) ->
+                  area_of (mname m) (expected inc0 R mods) <> 0).
+      { intros m Hm Hex. rewrite (area_expected inc0 R Fx mods m Hc Hm).
+        assert (S0 : 0 <= Qcsum (map (fun c => covered c (shape m)) R)).
+        { apply Qcsum_map_nonneg. intros. apply covered_nonneg. }
+        destruct (mfixed m) eqn:Hf.
+        - assert (0 < Qcsum (map area (mrects m))).
+          { rewrite Forall_forall in HX. pose proof (HX m Hm Hf) as Hnn.
+            destruct (mrects m) as [|r rs] eqn:Er; [congruence|].
+            apply (Qcsum_pos_in area (r :: rs) r).
+            - intros y Hy. apply Qclt_le_weak. apply wf_area_pos. rewrite Forall_forall in HW. apply HW.
+              apply in_or_app. right. apply (WF m y Hm Hf). rewrite Er. exact Hy.
+            - left. reflexivity.
+            - apply wf_area_pos. rewrite Forall_forall in HW. apply HW.
+              apply in_or_app. right. apply (WF m r Hm Hf). rewrite Er. left. reflexivity. }
+          apply pos_neq0. revert H S0. generalize (Qcsum (map area (mrects m))) (Qcsum (map (fun c => covered c (shape m)) R)).
+          intros. qlra.
+        - destruct (Hex eq_refl) as (c & Hin' & Hp).
+          assert (0 < Qcsum (map (fun c => covered c (shape m)) R)).
+          { apply (Qcsum_pos_in (fun c => covered c (shape m)) R c); auto. intros. apply covered_nonneg. }
+          apply pos_neq0. revert H. generalize (Qcsum (map (fun c => covered c (shape m)) R)). intros. qlra. }
+      destruct (expected_cases inc0 R mods cell Hin) as [(m' & r & Hm' & Hr & ->)|(c & Hin' & ->)]; cbn [calloc map fst] in Hk.
+      + destruct Hk as [<-|[]]. apply filter_In in Hm'. destruct Hm' as [Hm' Hf'].
+        destruct (in_squared mods m' Hm') as (m & Hm & ->). rewrite squared_fixed in Hf'. rewrite squared_name.
+        apply G; [exact Hm|]. intro. congruence.
+      + apply in_map_iff in Hk. destruct Hk as (p & <- & Hp). apply alloc_of_in in Hp.
+        destruct Hp as (m' & Hm' & -> & Hl). destruct (in_squared mods m' Hm') as (m & Hm & ->).
+        cbn [fst]. rewrite squared_name. apply G; [exact Hm|]. intro Hf.
+        destruct inc0 eqn:Ei.
+        * apply Htouch; auto.
+        * cbn [orb] in Hl. qb2p. rewrite squared_rects, cov_ratio_eq in Hl.
+          exists c. split; [exact Hin'|]. apply (div_pos_iff _ (area c) (wf_area_pos c (WR c Hin'))). exact Hl.
   Qed.
 End Main.
